@@ -1,4 +1,4 @@
-import CoapVerif.Lemmas.ServerProps
+import CoapVerif.Lemmas.ServerSeq
 /-
 C10 — server answers each request datagram once, with the protocol-prescribed code.
 
@@ -7,7 +7,12 @@ P1  `decision_eq_spec`: M (transcription of coap_dispatch / handle_request, Mode
 P2  the clauses of the property as theorems about S (and, through P1, about M): reply count, token echo, message id,
     NON never ACKed, 4.02/Reset, 4.04/2.02, 4.05, 4.12, 4.15, 5.05, 5.08/4.00, the handler call and its request view,
     No-Response / multicast suppression.
-T1  tables regenerated from the code are proved equal to the RFC tables of S.
+T1  tables regenerated from the code are proved equal to the RFC tables of S; the handlers the resource constructors
+    register by themselves are proved to be the documented ones.
+SEQ sequences of datagrams from several peers at one context (deferred responses, duplicate proxied requests):
+    `sequence_eq_spec` (M = S on every sequence from every history), `pending_of_others_irrelevant` (a request is decided
+    as on a fresh context unless the SAME peer has a deferred request with the SAME token / sent the same message id to the
+    proxy handler before), `deferred_retransmission_acked`, reply shape and count for every history.
 -/
 namespace Coap.C10
 open Coap Coap.Server Coap.Server.L Coap.Generated.Server
@@ -406,5 +411,196 @@ example : S.deliver exCfg ⟨false, ⟨1, 1, 7, [1], [(258, [2])], []⟩, ⟨69,
 example : S.deliver exCfg ⟨true, ⟨1, 1, 7, [1], [], []⟩, ⟨69, []⟩, .absent⟩ none false
     ⟨.lib, NON, 132, 7, [1], [], .bytes []⟩ = [] := by
   rw [multicast_suppression _ _ _ _ _ (by decide) (by decide) rfl rfl]; decide
+
+/-! ### T1: constructor presets and the legal part of the escape choice -/
+/-- coap_resource_init registers no handler, coap_resource_unknown_init2 the PUT handler, coap_resource_proxy_uri_init2
+a handler for every method 0.01–0.07 — as coap_resource(3) documents -/
+theorem constructor_presets_match_api :
+    presetRes = S.docPresetRes ∧ presetUnk = S.docPresetUnk ∧ presetPrx = S.docPresetPrx := by decide
+
+/-- hence the handler table of a real resource is exactly what the application asked for -/
+theorem handlers_as_registered : ∀ mask, mask < 128 →
+    M.effMask S.docPresetRes presetRes mask = mask ∧ M.effMask S.docPresetUnk presetUnk mask = mask ∧
+    M.effMask S.docPresetPrx presetPrx mask = mask := by decide
+
+def Table.small (t : Table) : Prop :=
+  (∀ u, t.unk = some u → u.mask < 128) ∧ (∀ p, t.prx = some p → p.mask < 128) ∧ ∀ r ∈ t.res, r.mask < 128
+
+/-- the table M is run on in the differential test (constructor presets + registrations) is the table S is run on -/
+theorem impl_table_eq (t : Table) (h : Table.small t) : M.implTable t = t := by
+  obtain ⟨hu, hp, hr⟩ := h
+  obtain ⟨unk, prx, res⟩ := t
+  unfold M.implTable
+  simp only at hu hp hr ⊢
+  congr 1
+  · cases unk with
+    | none => rfl
+    | some u => simp only [Option.map]; rw [(handlers_as_registered u.mask (hu u rfl)).2.1]
+  · cases prx with
+    | none => rfl
+    | some p => simp only [Option.map]; rw [(handlers_as_registered p.mask (hp p rfl)).2.2]
+  · induction res with
+    | nil => rfl
+    | cons r rs ih =>
+      simp only [List.map_cons]
+      rw [(handlers_as_registered r.mask (hr r List.mem_cons_self)).1, ih (fun x hx => hr x (List.mem_cons_of_mem _ hx))]
+
+example : Table.small ⟨some ⟨4, 0⟩, some ⟨127, 0, [112]⟩, [⟨[97], 17, 0, false⟩]⟩ := by
+  refine ⟨?_, ?_, ?_⟩
+  · intro u hu; cases hu; decide
+  · intro p hp; cases hp; decide
+  · intro r hr; simp at hr; subst hr; decide
+
+/-- the executable S of the differential run uses the legal part of the implementation's escape choice: it is the
+choice itself (this is `escape_tables_legal` once more, in the form the driver uses) -/
+theorem escape_restrict_id : S.Esc.restrict E = E := by decide
+
+set_option maxRecDepth 100000 in
+theorem restricted_tables_legal : S.Esc.legal (S.Esc.restrict E) := by
+  rw [escape_restrict_id]; exact esc_legal
+
+/-! ### sequences of datagrams at one context: deferred responses, duplicates (D11, D12) -/
+
+/-- P1 for a request that finds state left by earlier datagrams: for every configuration, table, request and whatever
+it finds (`hit`, `dup`), M = S up to D4 -/
+theorem decisionA_eq_specA (hit dup : Bool) (cfg : Cfg) (tbl : Table) (rq : Request) (hfit : fits cfg) :
+    (M.serverDecisionA hit dup cfg tbl rq).erase = S.serverSpecA E hit dup cfg tbl rq := by
+  unfold M.serverDecisionA S.serverSpecA
+  simp only [codeOk_eq]
+  by_cases h1 : S.validCode rq.msg.code = true
+  · simp only [h1, not_true_eq_false, if_false]
+    by_cases h2 : isRequestCode rq.msg.code = true
+    · simp only [h2, not_true_eq_false, if_false]
+      by_cases h3 : rq.verdict.code = 168
+      · simp [h3, Outcome.erase, Outcome.outOfScope]
+      · simp only [h3, if_false]
+        have hfwd : decide (tbl.prx.isSome = true ∧ (hasOpt rq.msg.opts 35 = true ∨ hasOpt rq.msg.opts 39 = true)) =
+            (tbl.prx.isSome && (hasOpt rq.msg.opts 35 || hasOpt rq.msg.opts 39)) := by
+          cases tbl.prx.isSome <;> cases hasOpt rq.msg.opts 35 <;> cases hasOpt rq.msg.opts 39 <;> rfl
+        rw [hfwd]
+        generalize (tbl.prx.isSome && (hasOpt rq.msg.opts 35 || hasOpt rq.msg.opts 39)) = fwd
+        obtain ⟨hok, hcrit⟩ := critCheck_spec hfit fwd rq.msg.opts
+        cases hbad : S.badOption cfg fwd rq.msg.opts with
+        | true =>
+          have hok' : (M.critCheck (M.knownFilter cfg) fwd rq.msg.opts).ok = false := by rw [hok, hbad]; rfl
+          simp only [hok', Bool.false_eq_true, not_false_eq_true, if_true]
+          by_cases hn : rq.msg.type = NON
+          · simp only [hn, if_true]
+            cases rq.mcast <;> simp [Outcome.erase, erase_emptyMsg]
+          · simp only [hn, if_false]
+            by_cases hc : rq.msg.type = CON
+            · simp only [hc, if_true, erase_outcome, List.map_cons, List.map_nil, erase_errReply]
+            · simp [hc, Outcome.erase, Outcome.nothing]
+        | false =>
+          have hok' : (M.critCheck (M.knownFilter cfg) fwd rq.msg.opts).ok = true := by rw [hok, hbad]; rfl
+          simp only [hok', not_true_eq_false, if_false, Bool.false_eq_true]
+          by_cases h9 : hasOpt rq.msg.opts 9 = true
+          · simp [h9, Outcome.erase, Outcome.outOfScope]
+          · simp only [h9, if_false, Bool.false_eq_true]
+            by_cases ha : rq.msg.type = ACK
+            · simp [ha, Outcome.erase, Outcome.nothing]
+            · by_cases hr : rq.msg.type = RST
+              · simp [hr, Outcome.erase, Outcome.nothing]
+              · simp only [ha, hr, or_self, if_false]
+                by_cases htok : rq.msg.token.length > cfg.mts
+                · simp only [htok, if_true]
+                  by_cases hm : cfg.mts > 8
+                  · simp only [hm, if_true, erase_outcome, List.map_cons, List.map_nil, erase_errReply]
+                  · simp only [hm, if_false]
+                    split <;> simp [Outcome.erase, erase_emptyMsg]
+                · simp only [htok, if_false]
+                  rw [hcrit hok']
+                  exact handleA_eq hit dup cfg tbl rq _ h3
+    · simp [h2, Outcome.erase, Outcome.outOfScope]
+  · simp only [h1]
+    by_cases ht : rq.msg.type = CON <;> simp [ht, Outcome.erase, erase_emptyMsg]
+
+/-- a request that finds nothing is decided by the single-datagram functions (to which all theorems above apply) -/
+theorem nothing_found_is_fresh (cfg : Cfg) (tbl : Table) (rq : Request) :
+    M.serverDecisionA false false cfg tbl rq = M.serverDecision cfg tbl rq ∧
+    ∀ e, S.serverSpecA e false false cfg tbl rq = S.serverSpec e cfg tbl rq :=
+  ⟨serverDecisionA_fresh cfg tbl rq, fun e => serverSpecA_fresh e cfg tbl rq⟩
+
+/-- M = S (up to D4) on EVERY sequence of datagrams from any peers, starting from any history -/
+theorem sequence_eq_spec (cfg : Cfg) (tbl : Table) (hfit : fits cfg) (h : Hist) (evs : List Ev) :
+    (M.serverSeq cfg tbl h evs).map Outcome.erase = S.seqSpec E cfg tbl h evs :=
+  seq_eq cfg tbl hfit (fun hit dup rq => decisionA_eq_specA hit dup cfg tbl rq hfit) evs h
+
+/-- "For each request datagram …": after ANY sequence `pre` of datagrams from any peers at a fresh context, a datagram
+is decided exactly as on a fresh context — unless the SAME peer sent, earlier, a request with the SAME token whose
+response was deferred (D11), or a Confirmable request with the SAME message id (D12).  In particular deferred requests
+of OTHER peers, whatever their tokens, never change what a request gets. -/
+theorem pending_of_others_irrelevant (cfg : Cfg) (tbl : Table) (pre : List Ev) (ev : Ev)
+    (htok : ∀ p ∈ pre, p.peer = ev.peer → p.defer = true → p.rq.msg.token ≠ ev.rq.msg.token)
+    (hmid : ∀ p ∈ pre, p.peer = ev.peer → p.rq.msg.type = CON → p.rq.msg.mid ≠ ev.rq.msg.mid) :
+    M.serverSeq cfg tbl Hist.empty (pre ++ [ev]) = M.serverSeq cfg tbl Hist.empty pre ++ [M.serverDecision cfg tbl ev.rq] ∧
+    ∀ e, S.seqSpec e cfg tbl Hist.empty (pre ++ [ev]) = S.seqSpec e cfg tbl Hist.empty pre ++ [S.serverSpec e cfg tbl ev.rq] := by
+  refine ⟨?_, fun e => ?_⟩
+  · unfold M.serverSeq
+    rw [seq_last_fresh _ pre ev htok hmid, serverDecisionA_fresh]
+  · unfold S.seqSpec
+    rw [seq_last_fresh _ pre ev htok hmid, serverSpecA_fresh]
+
+/-- a request of a peer whose request with the same token is pending (deferred), once past the message-level checks:
+a Confirmable one is acknowledged again (Empty ACK with its message id), nothing else is sent, no handler runs -/
+theorem deferred_retransmission_acked (e : S.Esc) (dup : Bool) (cfg : Cfg) (tbl : Table) (rq : Request)
+    (h : Admitted cfg tbl rq) :
+    S.serverSpecA e true dup cfg tbl rq =
+      ⟨true, if rq.msg.type = CON then [S.lib ACK 0 rq.msg.mid []] else [], none⟩ :=
+  specA_hit e dup h
+
+/-- whatever a request finds of its predecessors: the fresh-context outcome, or the repeated Empty ACK of D11 / D12 -/
+theorem history_changes_only_by_ack_again (e : S.Esc) (hit dup : Bool) (cfg : Cfg) (tbl : Table) (rq : Request) :
+    S.serverSpecA e hit dup cfg tbl rq = S.serverSpec e cfg tbl rq ∨
+    (S.serverSpecA e hit dup cfg tbl rq = ⟨true, if rq.msg.type = CON then [S.lib ACK 0 rq.msg.mid []] else [], none⟩ ∧
+      hit = true) ∨
+    (S.serverSpecA e hit dup cfg tbl rq = ⟨true, [S.lib ACK 0 rq.msg.mid []], none⟩ ∧ rq.msg.type = CON ∧ dup = true) :=
+  specA_cases e hit dup cfg tbl rq
+
+/-- reply count and shape (at most one reply or the proxied pair; message id, token echo, NON never ACKed, Reset empty)
+for every datagram of every sequence: stated for whatever the datagram finds -/
+theorem reply_shape_any_history (hit dup : Bool) (cfg : Cfg) (tbl : Table) (rq : Request) (hfit : fits cfg) :
+    (∀ x ∈ (M.serverDecisionA hit dup cfg tbl rq).replies, replyOk rq x) ∧
+    ((M.serverDecisionA hit dup cfg tbl rq).replies.length ≤ 1 ∨
+      ∃ a x, (M.serverDecisionA hit dup cfg tbl rq).replies = [a, x] ∧ a.type = ACK ∧ a.code = 0 ∧ x.type = CON ∧
+        ∃ c, (M.serverDecisionA hit dup cfg tbl rq).call = some c ∧ c.who = .prx) := by
+  have hs := outcomeA_ok E hit dup cfg tbl rq
+  rw [← decisionA_eq_specA hit dup cfg tbl rq hfit] at hs
+  constructor
+  · intro x hx
+    have h := hs.1 x.erase (List.mem_map_of_mem hx)
+    obtain ⟨t, c, m, k⟩ := erase_fields x
+    unfold replyOk at h ⊢
+    rw [t, c, m, k] at h
+    exact h
+  · have h := hs.2
+    unfold countOk Outcome.erase at h
+    simp only [List.length_map] at h
+    rcases h with h | ⟨x, h1, h2, c, h3, h4⟩
+    · exact Or.inl h
+    · right
+      match hr : (M.serverDecisionA hit dup cfg tbl rq).replies, h1 with
+      | [a, b], h1 =>
+        simp only [List.map_cons, List.map_nil, List.cons.injEq, and_true] at h1
+        obtain ⟨ha, hb⟩ := h1
+        obtain ⟨t, cd, _, _⟩ := erase_fields a
+        obtain ⟨t', _, _, _⟩ := erase_fields b
+        refine ⟨a, b, rfl, ?_, ?_, ?_, c, h3, h4⟩
+        · rw [← t, ha]; rfl
+        · rw [← cd, ha]; rfl
+        · rw [← t', hb]; exact h2
+      | [], h1 => simp at h1
+      | [_], h1 => simp at h1
+      | _ :: _ :: _ :: _, h1 => simp at h1
+
+/-! non-vacuity: peer 1's GET /a (token 01) is deferred; peer 2's GET /a with the same token runs the handler and gets its
+2.05; peer 1's retransmission only gets the Empty ACK -/
+def exDefer : Ev := ⟨1, true, ⟨false, ⟨0, 1, 7, [1], [(11, [97])], []⟩, ⟨0, []⟩, .absent⟩⟩
+def exOther : Ev := ⟨2, false, ⟨false, ⟨0, 1, 9, [1], [(11, [97])], []⟩, ⟨69, [104, 105]⟩, .absent⟩⟩
+def exAgain : Ev := ⟨1, false, ⟨false, ⟨0, 1, 7, [1], [(11, [97])], []⟩, ⟨69, [104, 105]⟩, .absent⟩⟩
+example : (M.serverSeq exCfg exTbl Hist.empty [exDefer, exOther, exAgain]).map (fun o => (o.replies.map (·.code), o.call.isSome)) =
+    [([0], true), ([69], true), ([0], false)] := by decide
+example := (pending_of_others_irrelevant exCfg exTbl [exDefer] exOther (by decide) (by decide)).1
+example : Admitted exCfg exTbl exAgain.rq := exAdmitted _ _ (by decide) (by decide) (by decide)
 
 end Coap.C10
